@@ -231,7 +231,7 @@ def random_table_pair(rng, tok=None, max_rows=12, missing=0.1, dup_rate=0.2, ext
     out = []
     lcols_extra = ['lx_int', 'lx_str', 'lx_flt'] if extras else []
     rcols_extra = ['rx_str', 'rx_flt', 'rx_bool'] if extras else []
-    key_kind = key_kind or rng.choice(['int', 'int_shuffled', 'str', 'int_sparse'])
+    key_kind = key_kind or rng.choice(['int', 'int_shuffled', 'str', 'int_sparse', 'numstr', 'float', 'neg'])
     pool_vals = [random_value(rng, tok, vocab, zipf, max_tokens) for _ in range(6)]
     for side, extra in (('l', lcols_extra), ('r', rcols_extra)):
         n = rng.choice([0, 1, 1, 2, 3, 5, 8, max_rows]) if rng.random() < 0.5 else \
@@ -252,6 +252,14 @@ def random_table_pair(rng, tok=None, max_rows=12, missing=0.1, dup_rate=0.2, ext
             rng.shuffle(keys)
         elif key_kind == 'int_sparse':
             keys = rng.sample(range(-50, 1000), n)
+        elif key_kind == 'numstr':      # strings that look like numbers; '1' and '01' are different keys
+            pool = sorted(set(['%d' % k for k in range(12)] + ['%02d' % k for k in range(12)] +
+                              ['%d.0' % k for k in range(6)]))
+            keys = rng.sample(pool, n) if n <= len(pool) else ['%03d' % k for k in range(n)]
+        elif key_kind == 'float':
+            keys = [k + 0.5 for k in rng.sample(range(-20, 200), n)]
+        elif key_kind == 'neg':
+            keys = [-k for k in rng.sample(range(1, 10 ** 6), n)]
         else:
             keys = ['%s%03d' % (side.upper(), k) for k in rng.sample(range(1000), n)]
         cols = [side + 'id', side + 'attr'] + list(extra)
@@ -338,6 +346,10 @@ def random_join_call(rng, api=None, tok=None, n_jobs_pool=(1, 1, 1, 2, 3), **tkw
         call['r_out_prefix'] = rng.choice(['right_', 'R.', 'r_'])
     call['out_sim_score'] = rng.random() < 0.75
     call['n_jobs'] = rng.choice(list(n_jobs_pool))
+    if rng.random() < 0.05:
+        call['show_progress'] = True
+    if call['threshold'] == 1.0 and rng.random() < 0.5:
+        call['threshold'] = 1          # an int is a valid threshold too
     return call
 
 
@@ -388,6 +400,17 @@ def random_candset(rng, L, R, l_key, r_key, size=None, with_missing_ok=True, ext
         index = ['c%d' % i for i in rng.sample(range(10 * n + 1), n)]
     if n == 0:
         dtypes.update({'_id': 'int64', cols[1]: 'object', cols[2]: 'object'})
+    else:
+        # key columns whose dtype differs from the tables' key dtype while the values match
+        for c, keys in ((cols[1], lk), (cols[2], rk)):
+            r = rng.random()
+            if all(isinstance(k, int) and not isinstance(k, bool) and abs(k) < 2 ** 31 for k in keys):
+                if r < 0.2:
+                    dtypes[c] = 'int32'
+                elif r < 0.3:
+                    dtypes[c] = 'object'
+            elif all(isinstance(k, str) for k in keys):
+                dtypes[c] = 'str' if r < 0.4 else 'object'
     return {'cols': cols, 'data': data, 'index': index, 'dtypes': dtypes}
 
 
